@@ -31,11 +31,12 @@ def apply_edits(ref, variants, offset=0):
 
 def classify(v, blocks):
     vs, ve = v["start"], v["end"]
+    # judged block by block (blocks may overlap - the frameshift model): a variant that partially overlaps any block straddles
+    if any(not (ve <= s or vs >= e) and not (s <= vs and ve <= e) for s, e in blocks):
+        return "straddles_boundary"
     if any(s <= vs and ve <= e for s, e in blocks):
         return "inside_block"
-    if all(ve <= s or vs >= e for s, e in blocks):
-        return "outside"
-    return "straddles_boundary"
+    return "outside"
 
 
 def edited_blocks(genome, blocks, variants):
@@ -374,7 +375,7 @@ def check_vcf(spec, ctx):
 
 @st.composite
 def strat_lift(draw, tier="quick"):
-    bl = draw(S.layout(max_k=4, allow_empty=False, allow_adjacent=True, allow_overlap=False, max_len=8, max_gap=6, max_start=10))
+    bl = draw(S.layout(max_k=4, allow_empty=False, allow_adjacent=True, allow_overlap=draw(st.integers(0, 4)) == 0, max_len=8, max_gap=6, max_start=10))
     lo, hi = bl[0][0], bl[-1][1]
     n = hi + draw(st.integers(2, 8))
     g = draw(S.dna(n, n))
@@ -398,10 +399,10 @@ def strat_incorporate(draw, tier="quick"):
         o = draw(S.feature_spec(max_blocks=3, max_len=8, start_max=10))
         lo, hi = o["blocks"][0][0], o["blocks"][-1][1]
     elif kind == "tx":
-        o = draw(S.transcript_spec(max_exons=3, max_len=8, start_max=10, frameshift_prob=0))
+        o = draw(S.transcript_spec(max_exons=3, max_len=8, start_max=10, frameshift_prob=0, cds_overlap_prob=5))
         lo, hi = o["exons"][0][0], o["exons"][-1][1]
     elif kind == "cds":
-        o = draw(S.cds_spec(max_k=3, max_len=8, frameshift_prob=10 ** 9, ambiguous_prob=10 ** 9))
+        o = draw(S.cds_spec(max_k=3, max_len=8, frameshift_prob=10 ** 9, ambiguous_prob=10 ** 9, overlap_prob=5))
         o.pop("genome")
         o["frameshift"] = False
         lo, hi = o["blocks"][0][0], o["blocks"][-1][1]
